@@ -362,6 +362,9 @@ func (s *pState) render(cw *cwriter.Writer) (err error) {
 			close(s.iterDrop)
 			return err
 		}
+		// The cursor rests on the line below the last row: a frame as tall
+		// as the terminal scrolls it and leaves its top row behind.
+		height--
 	} else {
 		if s.reqWidth > 0 {
 			width = s.reqWidth
